@@ -3,7 +3,7 @@
 // produced by the real lexer, grammar and Expression/StatementBuilder from a pool of expressions and queries covering every operator family
 // (incl. n-ary FUN_CALL / LIST / SIMULATE / quantifiers). Symbolic: which expression, which node is perturbed, the kind of perturbation,
 // the replacement constant (a 32-bit symbolic value decided by the solver), which symbol is substituted.
-#include "common.h"
+#include "docdump.h"
 
 static const char* DECLS =
     "int i; int j; int a[3]; bool b; clock x; clock y; double d; struct { int f; int g; } r; chan c; const int K = 2;\n"
@@ -96,7 +96,7 @@ extern "C" void harness_clone()  /* vf: bounds=24_expressions+27_queries(all_ope
     vf_reach("end");
 }
 
-extern "C" void harness_equality()  /* vf: bounds=single-node_perturbations_at_every_node:constant_value(symbolic_32-bit),int_vs_double_constant,kind_change,operand_swap,symbol_change;reflexive,symmetric,transitive,equal_implies_same_text */
+extern "C" void harness_equality()  /* vf: bounds=single-node_perturbations_at_every_node:constant_value(symbolic_32-bit),floating_constant(symbolic_64-bit_double),int_vs_double_constant,kind_change,operand_swap,symbol_change;reflexive,symmetric,transitive,equal_implies_same_text */
 {
     Ctx cx; QB* qb = nullptr;
     vf_assert(cx.declare(DECLS) == 0, "declarations-accepted");
@@ -106,7 +106,7 @@ extern "C" void harness_equality()  /* vf: bounds=single-node_perturbations_at_e
     expression_t c1 = e.clone_deeper(), c2 = c1.clone_deeper();
     vf_assert(e.equal(c1) && c1.equal(c2) && e.equal(c2) && c2.equal(e), "transitive-symmetric-on-clones");
     std::vector<expression_t> ne; walk(e, ne);
-    int at = vf_range("node", 0, (int)ne.size() - 1), pert = vf_pick("perturbation", 5);
+    int at = vf_range("node", 0, (int)ne.size() - 1), pert = vf_pick("perturbation", 6);
     const expression_t& n = ne[at];
     int idx = 0; expression_t p; bool differs = true;
     symbol_t other; cx.b.frames.top().resolve("j", other);
@@ -118,6 +118,14 @@ extern "C" void harness_equality()  /* vf: bounds=single-node_perturbations_at_e
         p = replace_at(e, idx, at, [&](const expression_t& o) { return expression_t::create_constant(v, o.get_position()); });
         bool eq = p.equal(e);
         vf_assert(eq == (v == n.get_value()), "constant-value-distinguished");
+        vf_assert(eq == e.equal(p), "symmetric");
+        vf_reach("end"); return; }
+    case 5: {  // floating-point constant: any double; equal iff it is the same value (the solver decides both directions over all 2^64 bit patterns)
+        vf_assume(n.get_kind() == CONSTANT && n.get_type().is(Constants::DOUBLE));
+        double v = vf_double("dvalue"), orig = n.get_double_value();
+        p = replace_at(e, idx, at, [&](const expression_t& o) { return expression_t::create_double(v, o.get_position()); });
+        bool eq = p.equal(e);
+        vf_assert(eq == (v == orig), "floating-constant-distinguished");
         vf_assert(eq == e.equal(p), "symmetric");
         vf_reach("end"); return; }
     case 1:  // constant type: int vs double of the same numeric value
@@ -201,5 +209,34 @@ extern "C" void harness_subst()  /* vf: bounds=24_expressions+27_queries_x_7_sym
     vf_assert(same_shape, "other-nodes-untouched");
     vf_assert(e.str() == text && count_ident(e, s) == occ, "original-unchanged");
     vf_assert((occ == 0) == r.equal(e), "changed-iff-symbol-occurs");
+    vf_reach("end");
+}
+
+// substitution inside types: the expressions a type carries (range bounds, array sizes, the same inside records, arrays of arrays, typedefs and
+// prefixes) are substituted like any other expression - this is how a process member's type gets its template arguments
+extern "C" void harness_type_subst()  /* vf: bounds=10_declared_types_with_expressions(range_bounds,array_sizes,nested_arrays,record_fields,typedef,const/meta_prefixes,scalar_set_size)_x_3_symbols;self-substitution_identity;original_unchanged reach=end */
+{
+    static const char* TDECLS =
+        "const int lo = 1; const int hi = 5; const int n = 3;\n"
+        "int[lo, hi] v0; int v1[n]; int[lo, lo + hi] v2[n][hi]; struct { int[0, hi] f; bool g[n]; } v3; typedef int[lo, hi] T_t; T_t v4; const int[lo, hi] v5 = 1; meta int[0, n * 2] v6;\n"
+        "typedef scalar[n] S_t; S_t v7; int v8[T_t]; struct { T_t f[n]; } v9[hi];\n";
+    Ctx cx;
+    vf_assert(cx.declare(TDECLS) == 0, "declarations-accepted");
+    int vi = vf_pick("!variable", 10), si = vf_pick("!symbol", 3);
+    static const char* SYMS[] = {"lo", "hi", "n"};
+    symbol_t s, v;
+    bool ok = cx.b.frames.top().resolve(SYMS[si], s) && cx.b.frames.top().resolve("v" + std::to_string(vi), v);
+    vf_assert(ok, "symbols-declared");
+    type_t t = v.get_type();
+    std::string text = t.str();
+    vf_note(text.c_str());
+    int val = 424242;   // a value that occurs nowhere in the declarations
+    type_t r = t.subst(s, expression_t::create_constant(val));
+    std::string got = r.str(), want = rename_word(text, SYMS[si], std::to_string(val));
+    vf_note(got.c_str());
+    vf_assert(got == want, "every-occurrence-in-the-type-replaced-and-nothing-else");
+    vf_assert(t.str() == text, "original-type-unchanged");
+    type_t id = t.subst(s, expression_t::create_identifier(s));
+    vf_assert(id.str() == text, "self-substitution-is-identity");
     vf_reach("end");
 }
